@@ -148,6 +148,9 @@ class Scenario(object):
             ops.append(['rename', 'z', 'zz'])
         if 'y' in keys and 'ynew' not in keys:
             ops.append(['update_id', 'y'])
+        npix = sum(1 for k in keys if k in ('row', 'row2'))
+        if npix < 2 and any(r['kind'] == 'pixel' for r in w.m):
+            ops.append(['update_id_pixel'])        # re-identify the first pixel attribute (twice at most)
         if 'x' in keys:
             ops.append(['update_components', 'x'])
             ops.append(['update_components_wrong', 'x'])
@@ -291,6 +294,19 @@ class Scenario(object):
                 # the model keeps the dependency under the old key (see check(): dependency by link ids)
                 for rr in w.m:
                     rr['deps'] = ['ynew' if x == 'y' else x for x in rr['deps']]
+            elif k == 'update_id_pixel':
+                r = [r for r in w.m if r['kind'] == 'pixel'][0]
+                newkey = 'row2' if (r['key'] == 'row' or 'row' in w.cids) else 'row'
+                new = ComponentID(newkey)
+                oldkey = r['key']
+                d.update_id(w.cids[oldkey], new)
+                w.cids[oldkey + '_old'] = w.cids.pop(oldkey)
+                w.cids[newkey] = new
+                r['key'] = newkey
+                r['label'] = newkey
+                w.expected.append(['ComponentReplacedMessage', [oldkey + '_old', newkey]])
+                for rr in w.m:
+                    rr['deps'] = [newkey if x == oldkey else x for x in rr['deps']]
             elif k == 'update_components':
                 d.update_components({w.cids[op[1]]: np.zeros(shape) + 9})
                 w.expected.append(['NumericalDataChangedMessage', None])
